@@ -227,6 +227,31 @@ theorem runWithCache_spec (W : World H S F) (L : List FileInput) (vis : Finding 
   simp only [runWithCache, runFresh]
   rw [g1, hc]
 
+/-- one run whose workers finish the files in any order `order` (a permutation of the listed files): the whole-program findings
+    are those of a fresh run, the per-file findings are those of a fresh run in the order the workers finished -/
+theorem runWithCacheSched_spec (W : World H S F) (L : List FileInput) (vis : Finding → Bool)
+    (hinj : HashInjOn W L) (henc : KeyFaithfulOn W.enc L)
+    (st : BdState H S F) (hbd : Inv W L st.1) (files order : List FileInput) (hperm : order.Perm files) (hL : ∀ i ∈ files, i ∈ L)
+    (hmac : MacroFree W vis files) (hsr : SummFree W (srOf W st.1 st.2) files) (hmap : MapOK W.lk (files.map (·.path))) :
+    (runWithCacheSched W vis st files order).2.whole = (runFresh W vis files).whole
+    ∧ (runWithCacheSched W vis st files order).2.perFile = (runFresh W vis order).perFile
+    ∧ Inv W L (runWithCacheSched W vis st files order).1.1 := by
+  have hmem : ∀ i, i ∈ order ↔ i ∈ files := fun i => hperm.mem_iff
+  obtain ⟨g1, g2, g3, _⟩ := runFiles_spec W L (srOf W st.1 st.2) vis (filesTxt (files.map (·.path))) hinj henc order st.1 hbd
+    (fun i hi => hL i ((hmem i).mp hi)) (fun i hi => hmac i ((hmem i).mp hi)) (fun i hi => hsr i ((hmem i).mp hi))
+  have hslots : (filesTxt (files.map (·.path))).map (·.afile)
+      = files.map (fun i => cacheFile W.lk (filesTxt (files.map (·.path))) i.path) := by
+    rw [hmap.1, List.map_map]; rfl
+  have hnd : (files.map fun i => cacheFile W.lk (filesTxt (files.map (·.path))) i.path).Nodup := hslots ▸ hmap.2
+  have hnd' : (order.map fun i => cacheFile W.lk (filesTxt (files.map (·.path))) i.path).Nodup :=
+    (hperm.map _).nodup_iff.mpr hnd
+  have hc := collect_spec W (filesTxt (files.map (·.path)))
+    (runFiles W (srOf W st.1 st.2) vis (filesTxt (files.map (·.path))) st.1 order).1
+    (filesTxt (files.map (·.path))) files hslots (filesTxt_source _) (fun i hi => g3 hnd' i ((hmem i).mpr hi))
+  refine ⟨?_, ?_, g2⟩
+  · simp only [runWithCacheSched, runFresh]; rw [hc]
+  · simp only [runWithCacheSched, runFresh]; rw [g1]
+
 /-- the per-file part alone needs no hypothesis on the file-to-cache-file mapping -/
 theorem runWithCache_perFile (W : World H S F) (L : List FileInput) (vis : Finding → Bool)
     (hinj : HashInjOn W L) (henc : KeyFaithfulOn W.enc L)
@@ -601,5 +626,90 @@ theorem suffixFirst_mapOK (paths : List Str) (hnd : paths.Nodup) (hsfx : NoSuffi
     (fun l hl => lookupSuffix_own _ (fun a ha b hb => hsfx _ (hsrc a ha) _ (hsrc b hb)) l hl)
   rw [filesTxt_source] at h
   exact h
+
+/-! ## 5. toolinfo: a change confined to one block of the chain (C19) -/
+
+theorem renderToolinfo_cons (it : ToolItem) (its : List ToolItem) (sv : SettingsView) :
+    renderToolinfo (it :: its) sv = (match renderItem sv it, renderToolinfo its sv with
+      | some v, some r => some (v ++ r)
+      | _, _ => none) := rfl
+
+theorem renderToolinfo_append (a b : List ToolItem) (sv : SettingsView) :
+    renderToolinfo (a ++ b) sv = (match renderToolinfo a sv, renderToolinfo b sv with
+      | some x, some y => some (x ++ y)
+      | _, _ => none) := by
+  induction a with
+  | nil =>
+    have hn : renderToolinfo [] sv = some [] := rfl
+    rw [List.nil_append, hn]
+    cases renderToolinfo b sv <;> simp
+  | cons it r ih =>
+    rw [List.cons_append, renderToolinfo_cons, renderToolinfo_cons, ih]
+    cases renderItem sv it <;> cases renderToolinfo r sv <;> cases renderToolinfo b sv <;> simp
+
+/-- two settings whose renderings agree before and after a block of the chain: equal toolinfo ⇒ the block renders equally -/
+theorem render_block_cancel (pre blk suf : List ToolItem) (sv sv' : SettingsView)
+    (hp : renderToolinfo pre sv = renderToolinfo pre sv') (hs : renderToolinfo suf sv = renderToolinfo suf sv')
+    (h : renderToolinfo (pre ++ (blk ++ suf)) sv = renderToolinfo (pre ++ (blk ++ suf)) sv')
+    (hsome : (renderToolinfo (pre ++ (blk ++ suf)) sv).isSome = true) :
+    renderToolinfo blk sv = renderToolinfo blk sv' := by
+  rw [renderToolinfo_append, renderToolinfo_append, renderToolinfo_append, renderToolinfo_append, ← hp, ← hs] at h
+  rw [renderToolinfo_append, renderToolinfo_append] at hsome
+  cases hP : renderToolinfo pre sv with
+  | none => simp [hP] at hsome
+  | some P =>
+    cases hS : renderToolinfo suf sv with
+    | none => cases hB : renderToolinfo blk sv <;> simp [hP, hS, hB] at hsome
+    | some S =>
+      cases hB : renderToolinfo blk sv with
+      | none => simp [hP, hS, hB] at hsome
+      | some B =>
+        cases hB' : renderToolinfo blk sv' with
+        | none => simp [hP, hS, hB, hB'] at h
+        | some B' =>
+          simp only [hP, hS, hB, hB', Option.some.injEq] at h
+          have := List.append_cancel_left h
+          rw [List.append_cancel_right this]
+
+theorem decInt_inj {a b : Int} (h : decInt a = decInt b) : a = b := by
+  unfold decInt at h
+  by_cases ha : a < 0 <;> by_cases hb : b < 0 <;> simp only [ha, hb, if_true, if_false] at h
+  · have := dec_inj (List.cons.inj h).2; omega
+  · have hd := dec_digits b.natAbs '-' (by rw [← h]; simp)
+    exact absurd hd (by decide)
+  · have hd := dec_digits a.natAbs '-' (by rw [h]; simp)
+    exact absurd hd (by decide)
+  · have := dec_inj h; omega
+
+/-- a one-item block: a string member is determined by its rendering -/
+theorem render_strField_inj (n : String) (sv sv' : SettingsView) (v : Str)
+    (h : renderToolinfo [.strField n] sv = renderToolinfo [.strField n] sv') (hv : assoc? n sv.strs = some v) :
+    assoc? n sv'.strs = some v := by
+  simp only [renderToolinfo_cons, renderItem, hv] at h
+  cases h' : assoc? n sv'.strs with
+  | none => simp [renderToolinfo, h'] at h
+  | some w => simp [renderToolinfo, h'] at h; rw [h]
+
+/-- … an int member too (`ostream << int`) -/
+theorem render_intField_inj (n : String) (sv sv' : SettingsView) (v : Int)
+    (h : renderToolinfo [.intField n] sv = renderToolinfo [.intField n] sv') (hv : assoc? n sv.ints = some v) :
+    assoc? n sv'.ints = some v := by
+  simp only [renderToolinfo_cons, renderItem, hv] at h
+  cases h' : assoc? n sv'.ints with
+  | none => simp [renderToolinfo, h'] at h
+  | some w =>
+    simp [renderToolinfo, h'] at h
+    rw [decInt_inj h]
+
+/-- … and a flag (`x ? c : ' '` with `c ≠ ' '`) -/
+theorem render_boolFlag_inj (n : String) (c : Char) (hc : c ≠ ' ') (sv sv' : SettingsView) (v : Bool)
+    (h : renderToolinfo [.boolFlag n c] sv = renderToolinfo [.boolFlag n c] sv') (hv : assoc? n sv.bools = some v) :
+    assoc? n sv'.bools = some v := by
+  simp only [renderToolinfo_cons, renderItem, hv] at h
+  cases h' : assoc? n sv'.bools with
+  | none => simp [renderToolinfo, h'] at h
+  | some w =>
+    simp [renderToolinfo, h'] at h
+    cases v <;> cases w <;> simp_all <;> exact absurd h.symm hc
 
 end Cppcheck.Cache
